@@ -47,7 +47,8 @@ func DefinedOnly(a [8]byte) [8]byte {
 type Acct struct {
 	Login    string
 	Name     string
-	Password string // clear text as the user types it
+	RawHash  *string // if set: written verbatim as the stored password (e.g. an unusable hash)
+	Password string  // clear text as the user types it
 	Access   [8]byte
 	FileRoot string
 }
@@ -79,7 +80,13 @@ func HashPassword(clear string) string {
 // AccountYAML renders an account file in the named-flag format.
 func AccountYAML(a Acct) string {
 	var b strings.Builder
-	fmt.Fprintf(&b, "Login: %s\nName: %s\nPassword: %s\nAccess:\n", yamlQuote(a.Login), yamlQuote(a.Name), yamlQuote(HashPassword(a.Password)))
+	stored := ""
+	if a.RawHash != nil {
+		stored = *a.RawHash
+	} else {
+		stored = HashPassword(a.Password)
+	}
+	fmt.Fprintf(&b, "Login: %s\nName: %s\nPassword: %s\nAccess:\n", yamlQuote(a.Login), yamlQuote(a.Name), yamlQuote(stored))
 	// DownloadFile first: the loader recognises the named format by this key.
 	order := []int{2, 39, 1, 38, 0, 3, 4, 5, 6, 7, 8, 9, 10, 11, 12, 13, 14, 15, 16, 17, 18, 20, 21, 22, 23, 24, 25, 26, 27, 28, 29, 30, 31, 32, 33, 34, 35, 36, 37, 40}
 	for _, i := range order {
